@@ -309,7 +309,8 @@ ADDENDA = {
            "Parser actions; beyond the listed property the error kind and Display / panic text of every failing operation "
            "are compared as extras (never a violation).",
     "C14": "Same second alphabet family and parser_method! actions as C13.",
-    "C15": "The container behaviours are also replayed with a zero-sized Drop element type (counts); packed braced and "
+    "C15": "Clone::clone_from between two live containers is an action; the container behaviours are also replayed with a "
+           "zero-sized Drop element type (counts) and a Copy element type (copy()); packed braced and "
            "tuple structs are destructured inside const fn (unaligned field reads judged by the const evaluator).",
     "C16": "Kind `record`: a user aggregate compared through impl_cmp! / try_equal! / coerce_to_cmp!; recorded slices of "
            "9..80 elements.",
